@@ -368,4 +368,39 @@ theorem recvPollInformational_ev (s : Streams) (id : Nat) (tag : String) : Ev s 
   unfold Streams.recvPollInformational
   ev_auto
 
+-- ===================================================================== the pops of `pending_reset_expired` (`EvT`)
+
+theorem clearExpiredResetStreams_evT : ∀ (fuel : Nat) (s : Streams), EvT s (Streams.clearExpiredResetStreams fuel s) := by
+  intro fuel
+  induction fuel with
+  | zero => intro s; exact .refl _
+  | succ n ih =>
+    intro s
+    unfold Streams.clearExpiredResetStreams
+    split
+    · exact .refl _
+    · have h := EvT.resetPop (s := s)
+      split
+      · next s' heq => rw [heq] at h; exact h
+      · next s' id heq => rw [heq] at h; exact .trans h (ih _)
+
+theorem clearAllResetStreams_evT : ∀ (fuel : Nat) (s : Streams), EvT s (Streams.clearAllResetStreams fuel s) := by
+  intro fuel
+  induction fuel with
+  | zero => intro s; exact .refl _
+  | succ n ih =>
+    intro s
+    unfold Streams.clearAllResetStreams
+    have h := EvT.resetPop (s := s)
+    split
+    · next s' heq => rw [heq] at h; exact h
+    · next s' id heq => rw [heq] at h; exact .trans h (ih _)
+
+theorem recvClearQueues_evT (s : Streams) (b : Bool) : EvT s (s.recvClearQueues b) := by
+  unfold Streams.recvClearQueues
+  dsimp only
+  split
+  · exact .trans (.trans (.ev (clearStreamWindowUpdateQueue_ev _ _)) (clearAllResetStreams_evT _ _)) (.ev (clearAllPendingAccept_ev _ _))
+  · exact .trans (.ev (clearStreamWindowUpdateQueue_ev _ _)) (clearAllResetStreams_evT _ _)
+
 end H2V.Lemmas.ConnCountsP
